@@ -1,5 +1,6 @@
 """Rules on sqlparse/filters and formatter wiring (C06, C08, C10)."""
 import ast
+from . import rx
 
 from .astutil import Guards, src, is_name, is_attr, local_defs, enum_paths, exits_always, alias_map, canon_text
 from .cg import get_cg
@@ -752,6 +753,6 @@ def check_operator_spacing_tokens(ctx, rid):
         ctx.ob(rid, 'operator-spacing', kwloc, f'{len(words)} operator spellings keep their token when a blank is put behind / in front of them', True)
     for pat, items in sorted(bad.items()):
         line = next((x.line for x in T.lex if x.pattern == pat), 0)
-        ctx.ob(rid, f'operator-spacing:rule={pat}', f'{kwloc}:{line}', 'an operator followed by a blank is still that operator', False,
+        ctx.ob(rid, f'operator-spacing:rule={rx.canon_pattern(pat)}', f'{kwloc}:{line}', 'an operator followed by a blank is still that operator', False,
                f'rule {pat!r} takes over for {[i[0] for i in items][:6]}: e.g. `1{items[0][0]}2` is formatted to `1 {items[0][0]} 2`, where '
                f'`{items[0][0]} 2` lexes as {items[0][1]} -- the operator and everything behind it on the line become another token')
